@@ -989,6 +989,11 @@ SOLVER_CONFIGS = {
     # functions (//@portfolio nl) are run under both: a function is discharged if either proves it, refuted if a
     # configuration that finished reports an error for it and none proves it within the wall-clock limit.
     "nl_no_nra": ["--smt-option", "smt.arith.nl.nra=false"],
+    # Z3's nonlinear real arithmetic is unstable: the same true goal can be proved in a second under one random seed and
+    # run for minutes under another.  NL units therefore also run under two more seeds; any configuration proving a
+    # function discharges it.
+    "seed1": ["--smt-option", "smt.random_seed=1"],
+    "seed2": ["--smt-option", "smt.random_seed=2"],
 }
 
 
@@ -1040,7 +1045,7 @@ def run_unit(u, scratch, rlimit, wall):
     ptext, _rw, _ex = build_unit(u, probe=True)
     pname = "%s_probe.rs" % u["name"]
     write(os.path.join(scratch, pname), ptext)
-    jobs = [(fname, text, c) for c in (["default", "nl_no_nra"] if nl else ["default"])]
+    jobs = [(fname, text, c) for c in (["default", "seed1", "seed2", "nl_no_nra"] if nl else ["default"])]
     jobs.append((pname, ptext, "nl_no_nra" if nl else "default"))
     import threading
     cancel = threading.Event() if nl else None
@@ -1051,17 +1056,23 @@ def run_unit(u, scratch, rlimit, wall):
     # combine the portfolio
     done = [r for r in res["runs"] if not r["timed_out"] and r["verified"] is not None and not r["hard"]]
     hard = [h for r in res["runs"] for h in r["hard"]]
+    all_finished = len(done) == len(res["runs"])
     main = {"cmd": " ;; ".join(r["cmd"] for r in res["runs"]), "seconds": max(r["seconds"] for r in res["runs"]),
             "lines": text.count("\n"), "hard": hard if not done else [], "configs": [
-                {"config": r["config"], "seconds": r["seconds"], "timed_out": r["timed_out"], "verified": r["verified"], "errors": r["errors"]}
+                {"config": r["config"], "seconds": r["seconds"], "status": r.get("status"), "verified": r["verified"], "errors": r["errors"]}
                 for r in res["runs"]],
-            "out_tail": "\n".join(r["out_tail"][-1200:] for r in res["runs"])}
+            "out_tail": "\n".join(r["out_tail"][-1200:] for r in res["runs"]), "undecided_fns": []}
     if not done:
         main.update({"verified": None, "errors": None, "findings": []})
     else:
         failing_sets = [set(f["fn"] for f in r["findings"]) for r in done]
         still = set.intersection(*failing_sets)  # functions no finished configuration could prove
         best = min(done, key=lambda r: r["errors"])
+        cancelled = any(r.get("status") == "cancelled" for r in res["runs"])
+        if still and not all_finished and not cancelled:
+            # some configuration timed out: it might have proved these; they are undecided, not refuted
+            main["undecided_fns"] = sorted(f for f in still if f != "verif_vacuity_probe")
+            still = {f for f in still if f == "verif_vacuity_probe"}
         fnd = []
         for r in done:
             for f in r["findings"]:
@@ -1080,7 +1091,7 @@ def run(prop, tier, obs, jobs, replay_dir, known_sites):
     with ThreadPoolExecutor(max_workers=max(1, min(jobs // 3, len(units)))) as ex:
         results = list(ex.map(lambda u: run_unit(u, scratch, rlimit, u.get("timeout", wall)), units))
     records, violations, cmds = [], [], []
-    info = {"units": [], "rewrites_applied": {}, "trusted_base": [], "assumptions": []}
+    info = {"units": [], "rewrites_applied": {}, "trusted_base": [], "assumptions": [], "undecided": []}
     # status of every function of every unit, for the cross-unit arbiter rule: an `exact` obligation (expression tree in
     # the code's own association) that fails is forgiven iff its idealised twin, which states the same clause over the
     # reals, is PROVED on the same tree (a twin that fails or times out forgives nothing)
@@ -1090,7 +1101,7 @@ def run(prop, tier, obs, jobs, replay_dir, known_sites):
         if m["hard"] or m["verified"] is None:
             unit_status[u["name"]] = None
         else:
-            unit_status[u["name"]] = {f["fn"] for f in m["findings"]}
+            unit_status[u["name"]] = {f["fn"] for f in m["findings"]} | set(m.get("undecided_fns", []))
 
     def arbiter_ok(arb, this_unit, names, failing, unit_status):
         if "::" in arb and arb.split("::")[0] in unit_status:
@@ -1115,20 +1126,25 @@ def run(prop, tier, obs, jobs, replay_dir, known_sites):
                                 "note": "solver timeout / not decidable on this tree"})
             continue
         if main["hard"] or main["verified"] is None:
-            raise Undecided("verus unit %s: not a refutation (syntax/type error, rlimit, timeout or crash):\n%s\n%s" % (
-                u["name"], "\n".join(main["hard"])[:3000], main["out_tail"][-1500:]))
+            info["undecided"].append("verus unit %s: not a refutation (syntax/type error, rlimit, timeout or crash): %s %s" % (
+                u["name"], " | ".join(main["hard"])[:1500], main["out_tail"][-600:]))
+            for ob in u["obs"]:
+                records.append({"name": "%s::%s" % (u["name"], ob["fn"]), "engine": "verus", "unit": u["name"], "status": "undecided",
+                                "function": ob.get("real"), "clause": ob.get("clause"), "kind": ob.get("kind")})
+            continue
         # vacuity: the assert(false) probes must all fail, and the axiom probe must fail
         spec_fns = [e["fn"] for e in res["extracted"] if e["has_spec"]]
         probe_failed = {f["fn"] for f in probe["findings"] if "assertion failed" in f["kind"] or True}
-        if probe["timed_out"]:
-            raise Undecided("verus unit %s probe variant timed out" % u["name"])
-        if probe["hard"] or probe["verified"] is None:
-            raise Undecided("verus unit %s probe variant did not run: %s" % (u["name"], (probe["hard"] or [probe["out_tail"]])[0][:1500]))
+        if probe["timed_out"] or probe["hard"] or probe["verified"] is None:
+            info["undecided"].append("verus unit %s: probe variant did not run / timed out: %s" % (u["name"], str((probe["hard"] or [probe["out_tail"]])[0])[:800]))
+            continue
         vac = [f for f in spec_fns if f not in probe_failed]
         if vac:
-            raise Undecided("verus unit %s: vacuity guard: assert(false) is provable at the start of %s (contradictory precondition or axioms)" % (u["name"], vac))
-        if "verif_vacuity_probe" in res["text"] and "verif_vacuity_probe" not in {f["fn"] for f in main["findings"]}:
-            raise Undecided("verus unit %s: axiom vacuity probe `ensures false` verified: the axiom set is inconsistent" % u["name"])
+            info["undecided"].append("verus unit %s: vacuity guard: assert(false) is provable at the start of %s (contradictory precondition or axioms)" % (u["name"], vac))
+            continue
+        if "verif_vacuity_probe" in res["text"] and "verif_vacuity_probe" not in {f["fn"] for f in main["findings"]} and not main.get("undecided_fns"):
+            info["undecided"].append("verus unit %s: axiom vacuity probe `ensures false` verified: the axiom set is inconsistent" % u["name"])
+            continue
         failing = {}
         for f in main["findings"]:
             if f["fn"] == "verif_vacuity_probe":
@@ -1151,7 +1167,11 @@ def run(prop, tier, obs, jobs, replay_dir, known_sites):
                    "at": ob.get("at") or ("%s:%d" % (ex[0]["file"], ex[0]["line"]) if ex else None),
                    "clause": ob.get("clause"), "kind": ob.get("kind", "exact"), "solver": "z3 (verus)",
                    "seconds": main["seconds"], "extracted_from_repo": bool(ex)}
-            if fn in forgiven:
+            if fn in main.get("undecided_fns", []):
+                rec["status"] = "undecided"
+                rec["note"] = "no finished solver configuration proved it and at least one configuration timed out"
+                info["undecided"].append("verus %s::%s: solver portfolio undecided (timeout)" % (u["name"], fn))
+            elif fn in forgiven:
                 rec["status"] = "discharged"
                 rec["note"] = ("exact expression tree differs from the recorded association (%s); the idealised twin %s re-proved the "
                                "clause over the reals on this tree" % ("; ".join(f["msg"] for f in forgiven[fn]), ob.get("arbiter")))
